@@ -69,17 +69,32 @@ func (m Model) ModelOp(store string, unique bool, op Op) (ok bool, val string, i
 		return true, "", nil, int64(len(items0)), false
 	case "scan":
 		out := append([]KV{}, items0...)
-		if op.N > 0 && len(out) > op.N {
-			out = out[:op.N]
+		return true, "", out, 0, false
+	case "range", "rrange":
+		out := []KV{}
+		for _, kv := range items0 {
+			if kv.K >= op.Key && kv.K <= op.Hi {
+				out = append(out, kv)
+			}
+		}
+		if op.K == "rrange" {
+			for i, j := 0, len(out)-1; i < j; i, j = i+1, j-1 {
+				out[i], out[j] = out[j], out[i]
+			}
 		}
 		return true, "", out, 0, false
+	case "findfirst", "finddesc", "findid":
+		out := []KV{}
+		for _, kv := range items0 {
+			if kv.K == op.Key {
+				out = append(out, kv)
+			}
+		}
+		return idx >= 0, "", out, 0, false
 	case "rscan":
 		out := []KV{}
 		for i := len(items0) - 1; i >= 0; i-- {
 			out = append(out, items0[i])
-		}
-		if op.N > 0 && len(out) > op.N {
-			out = out[:op.N]
 		}
 		return true, "", out, 0, false
 	}
